@@ -12,7 +12,8 @@
    repaired scan and the theorems hold for all int keys (Example C11_negative_key_alias_rejected). *)
 From Coq Require Import List Arith Bool ZArith.
 From TLV Require Import Base.PyList Base.Tensor.
-From TLV Require Import Model.Constraints Proofs.ConstraintsProofs Proofs.ConstraintsProofsLoop Proofs.ConstraintsProofsKeys.
+From TLV Require Import Model.Constraints Proofs.ConstraintsProofs Proofs.ConstraintsProofsLoop Proofs.ConstraintsProofsKeys
+  Proofs.ConstraintsProofsTotal.
 Import ListNotations.
 
 (* (i) decision logic at the real call site (the twelve keywords), every request: when the table exists, entry m is (k,p)
@@ -151,6 +152,26 @@ Theorem C11_success_implies_no_double : forall (P : Type) (truthy : P -> bool) (
   ~ zdouble truthy n sp /\ ~ zself_alias n sp /\ ~ zno_mode truthy n sp.
 Proof. exact @zcp_ok_no_double. Qed.
 Print Assumptions C11_success_implies_no_double.
+
+(* conversely a request that validate_constraints accepts is never rejected by the decomposition (order >= 1, inner budget
+   >= 1, at most n initial factors), whatever the environment ... *)
+Theorem C11_valid_request_returns : forall (P : Type) (truthy : P -> bool) (M : Type) (dM : M)
+  (op : kind -> P -> M -> M) (msub madd : M -> M -> M) (n : nat) (sp : list (kind * @zspec P)) (tab : @table P)
+  (E : env (M := M)) (i0 : init (M := M)) (fixed : list nat) (n_outer n_inner : nat) (zero : M),
+  zvalidate_table truthy n sp = Ok tab -> 0 < n -> 0 < n_inner -> length (init_factors i0) <= n ->
+  exists fs, constrained_cp dM op (zvalidate truthy n sp) msub madd E n i0 fixed n_outer n_inner zero = Ok fs.
+Proof. exact @zcp_valid_request_returns. Qed.
+Print Assumptions C11_valid_request_returns.
+
+(* ... so the decomposition raises exactly on the requests that put two constraints on one mode / address no existing mode *)
+Theorem C11_decomposition_rejects_iff : forall (P : Type) (truthy : P -> bool) (M : Type) (dM : M)
+  (op : kind -> P -> M -> M) (msub madd : M -> M -> M) (n : nat) (sp : list (kind * @zspec P)) (E : env (M := M))
+  (i0 : init (M := M)) (fixed : list nat) (n_outer n_inner : nat) (zero : M),
+  zwf_specs sp -> 0 < n -> 0 < n_inner -> length (init_factors i0) <= n ->
+  (constrained_cp dM op (zvalidate truthy n sp) msub madd E n i0 fixed n_outer n_inner zero = Err <->
+   zdouble truthy n sp \/ zself_alias n sp \/ zno_mode truthy n sp).
+Proof. exact @zcp_err_iff. Qed.
+Print Assumptions C11_decomposition_rejects_iff.
 
 (* modes that are updated: every mode not listed as fixed (the last one is never fixed) *)
 Theorem C11_free_modes_updated : forall (n : nat) (fixed : list nat) (m : nat),
